@@ -24,6 +24,8 @@ fn build(cfg: &[u16]) -> Built {
     c.opers.push(OperSpec { name: "op0".into(), password: "operpw0".into(), mask: None });
     c.ping_timeout = 50;
     c.pong_timeout = 5;
+    // user modes every new user starts with (they take part in the counters a session end undoes)
+    c.default_modes = ["", "", "", "", "O", "o", "i", "w", "Ow", "iw", "Oi"][s.pick(11)].to_string();
     let mut prof = Profile::base().with(&[
         (K::Join, 24),
         (K::ModeChan, 18),
@@ -122,7 +124,15 @@ fn run_prefix(b: &Built, case: &ScCase, cut: usize, st: &mut Stats) -> Option<En
     // state: it is tolerated (counted) so that the end-of-session clean-up is still judged
     let ok = |eng: &Engine, o: &StepOut| {
         let _ = eng;
-        o.discs.is_empty() || o.discs.iter().all(|d| matches!(d, Disc::Extra { conn, line } if Some(*conn) == o.actor && line[0] == "S"))
+        // (so is a different number in the LUSERS block of the actor's own welcome / LUSERS reply:
+        // the counters are C19's, the visible state is where the model has it)
+        const COUNTERS: [&str; 7] = ["251", "252", "253", "254", "255", "265", "266"];
+        o.discs.is_empty()
+            || o.discs.iter().all(|d| match d {
+                Disc::Extra { conn, line } if Some(*conn) == o.actor && line[0] == "S" => true,
+                Disc::Missing { conn, line } if Some(*conn) == o.actor && line[0] == "S" && COUNTERS.contains(&line[1].as_str()) => true,
+                _ => false,
+            })
     };
     for i in 0..b.prelude_users {
         let (_, outs) = eng.register(&b.prof.nicks[i], &format!("u{}", i));
@@ -321,6 +331,19 @@ fn survivors_probe(eng: &mut Engine, b: &Built, vnick: &str, kind: &str, st: &mu
         .collect();
     for (c, ch) in invited {
         st.count("invitation_probes");
+        // if the channel died with the session, somebody re-creates it invite-only first: the
+        // invitation is the bystander's, not the dead channel's
+        if !eng.model.chans.contains_key(&ch) {
+            if let Some(x) = registered_conns(&eng.model).into_iter().find(|x| *x != c) {
+                for l in [format!("JOIN {}", ch), format!("MODE {} +i", ch)] {
+                    let o = eng.line(x, &l);
+                    if !o.discs.is_empty() {
+                        return Err(viol_from(eng, &o, kind, "re-creating a channel that died with the session"));
+                    }
+                }
+                st.count("invitation_probes_recreated");
+            }
+        }
         let o = eng.line(c, &format!("JOIN {}", ch));
         if !o.discs.is_empty() {
             return Err(viol_from(eng, &o, kind, "JOIN by an invited bystander after the end"));
